@@ -355,6 +355,14 @@ func lookupOcspIssuer(sc *storageContext, req *ocsp.Request, optRevokedIssuer is
 	}
 
 	if matchedButNoUsage {
+		if optRevokedIssuer != "" {
+			// The issuer associated with the revoked certificate is the one
+			// the client is asking about, but it is not allowed to sign the
+			// response. As for certificates which aren't revoked, another
+			// issuer that we rotated might match and be allowed to.
+			return lookupOcspIssuer(sc, req, "")
+		}
+
 		// We matched an issuer but it did not have an OCSP signing usage set so bail.
 		return nil, nil, ErrMissingOcspUsage
 	}
